@@ -17,9 +17,11 @@ def run(prop, tier):
     acc = common.Acc()
     caps = [1, 2, 3, 4, 5, 6] if tier == "quick" else [1, 2, 3, 4, 5, 6, 7, 8, 9, 12]
     jobs = [(s, m) for s in caps for m in (0, 1, 2)]
+    # capacities whose segment (16 bytes of positions + S + 1) ends exactly at, just before and just after a page boundary: a directed script through both handles
+    jobs += [(s, m) for s in (4079, 4080, 4081, 8176) for m in (0, 1)]
     common.parallel(lambda j: common.run_harness(x, list(j), acc, "shmbuf_bfs S=%d mode=%d" % j, timeout=3000, crash_prop=prop), jobs)
     # (b) concurrent handles under the controlled scheduler: linearizability of write/read/used/clear
-    scripts = [("w", "r"), ("ww", "r"), ("w", "w", "r"), ("wr", "rw"), ("w", "u", "r"), ("wc", "r")] + ([("ww", "rr", "u"), ("wrw", "rwr"), ("w", "w", "w")] if tier == "thorough" else [])
+    scripts = [("w", "r"), ("ww", "r"), ("w", "w", "r"), ("wr", "rw"), ("w", "u", "r"), ("wc", "r"), ("Xw", "w"), ("X", "w", "r")] + ([("ww", "rr", "u"), ("wrw", "rwr"), ("w", "w", "w")] if tier == "thorough" else [])
     p = 2 if tier == "quick" else 3
     sjobs = [dict(src="harness/sched_ipc.c", ipc=True, args=["shmbuf", "-p", p if len(sc) < 3 else 2, "--"] + list(sc)) for sc in scripts]
     sacc = mcsched.run_jobs(prop, tier, sjobs)
